@@ -1,5 +1,5 @@
 (* Corr/C11.v — correspondence glue: runs the Commands model on a case observed on the real command stack. *)
-From TX Require Import Base.Val Model.CmdContext Model.Commands.
+From TX Require Import Base.Val Model.CmdContext Model.Pending Model.Commands.
 Open Scope N_scope.
 
 (* case value:
@@ -58,7 +58,12 @@ Definition step_result (tbl : list row) (w : world) (s : tval) : result :=
   match vn (vnth 0 s) with
   | 4 => mk true (apply_event (EvReauth (vn (vnth 1 s)) (vn (vnth 2 s))) w)
   | 5 => mk true (apply_event (EvRemove (vn (vnth 1 s))) w)
-  | _ => exec tbl w (dec_kind (vnth 0 s) (vnth 1 s)) (vn (vnth 10 s)) (dec_cmd s)
+  | _ =>
+      (* element 12 (optional): k > 0 = the k-th storage call made while the command was handled failed *)
+      match vnat (vnth 12 s) with
+      | O => exec tbl w (dec_kind (vnth 0 s) (vnth 1 s)) (vn (vnth 10 s)) (dec_cmd s)
+      | S p => exec_faulty false tbl w (dec_kind (vnth 0 s) (vnth 1 s)) (vn (vnth 10 s)) (dec_cmd s) p
+      end
   end.
 
 Fixpoint run_steps (tbl : list row) (w : world) (ss : list tval) : bool :=
@@ -79,8 +84,24 @@ Definition overlap_model (v : tval) : list (list ctxval) :=
 Definition check_overlap (v : tval) : bool :=
   all2 (fun obs o => rows_eqb (map proj_ctx obs) (vl o)) (overlap_model v) (vl (vnth 3 v)).
 
+(* pending-request tables (Model/Pending.v):  [ 8 ; events ; observed ]
+   event = [0; id; request; responder] register | [1; id; from; payload] response | [2; id] unregister
+   observed = per request (index order) the payloads its requester received *)
+Definition dec_pev (v : tval) : pev :=
+  match vn (vnth 0 v) with
+  | 0 => PReg (vn (vnth 1 v)) (vn (vnth 2 v)) (vn (vnth 3 v))
+  | 1 => PResp (vn (vnth 1 v)) (vn (vnth 2 v)) (vn (vnth 3 v))
+  | _ => PUnreg (vn (vnth 1 v))
+  end.
+Definition pending_model (v : tval) : list (list N) :=
+  let evs := map dec_pev (vl (vnth 1 v)) in
+  map (fun q => got false evs (N.of_nat q)) (seq 0 (length (vl (vnth 2 v)))).
+Definition check_pending (v : tval) : bool :=
+  all2 (fun g o => list_eqb g (map vn (vl o))) (pending_model v) (vl (vnth 2 v)).
+
 Definition check (v : tval) : bool :=
   if vn (vnth 0 v) =? 9 then check_overlap v
+  else if vn (vnth 0 v) =? 8 then check_pending v
   else run_steps (dec_table (vnth 0 v)) (dec_world (vnth 1 v)) (vl (vnth 2 v)).
 
 (* the model's outputs, step by step, for diagnostics *)
@@ -97,4 +118,5 @@ Fixpoint predict_steps (tbl : list row) (w : world) (ss : list tval) : list tval
   end.
 Definition predict (v : tval) : tval :=
   if vn (vnth 0 v) =? 9 then VL (map (fun obs => enc_rows (map proj_ctx obs)) (overlap_model v))
+  else if vn (vnth 0 v) =? 8 then enc_rows (pending_model v)
   else VL (predict_steps (dec_table (vnth 0 v)) (dec_world (vnth 1 v)) (vl (vnth 2 v))).
